@@ -30,14 +30,17 @@ func expectOf(v ViolationJSON) string {
 		return "assert:" + v.Label
 	case "alloc":
 		return "alloc"
+	case "ownership":
+		return "race"
 	default:
 		return "panic:" + v.Kind
 	}
 }
 
 type replayRunner struct {
-	lg  *loadedGroup
-	bin string
+	lg   *loadedGroup
+	bin  string
+	race bool
 	mu  sync.Mutex
 }
 
@@ -48,6 +51,10 @@ func goEnv() []string {
 // buildReplayRunner compiles the package under test together with the harness files and the native
 // runtime (through -overlay; nothing is written under the repository) into one test binary.
 func buildReplayRunner(lg *loadedGroup, work string) (*replayRunner, error) {
+	return buildReplayRunnerOpt(lg, work, false)
+}
+
+func buildReplayRunnerOpt(lg *loadedGroup, work string, race bool) (*replayRunner, error) {
 	g := lg.g
 	rt := filepath.Join(work, g.Name+"_rt_native.go")
 	if err := renderTemplate(filepath.Join(verifDir, "harness", "rt", "native.go.tmpl"), rt, g.PkgName); err != nil {
@@ -76,19 +83,28 @@ func buildReplayRunner(lg *loadedGroup, work string) (*replayRunner, error) {
 	ov := filepath.Join(work, g.Name+"_overlay.json")
 	os.WriteFile(ov, ovb, 0o644)
 	bin := filepath.Join(work, g.Name+".replay.test")
-	cmd := exec.Command("go", "test", "-c", "-tags", "verif", "-vet=off", "-overlay", ov, "-o", bin, g.Pkg)
+	args := []string{"test", "-c", "-tags", "verif", "-vet=off", "-overlay", ov, "-o", bin}
+	if race {
+		bin = filepath.Join(work, g.Name+".replay.race.test")
+		args = []string{"test", "-c", "-race", "-tags", "verif", "-vet=off", "-overlay", ov, "-o", bin}
+	}
+	cmd := exec.Command("go", append(args, g.Pkg)...)
 	cmd.Dir = g.Dir
 	cmd.Env = goEnv()
 	out, err := cmd.CombinedOutput()
 	if err != nil {
 		return nil, fmt.Errorf("go test -c: %v: %s", err, string(out))
 	}
-	return &replayRunner{lg: lg, bin: bin}, nil
+	return &replayRunner{lg: lg, bin: bin, race: race}, nil
 }
 
 // run executes one replay in a fresh process under an address-space limit and returns its output.
 func (r *replayRunner) run(harness, replayPath string) string {
-	cmd := exec.Command("bash", "-c", `ulimit -v 8388608; exec "$0" -test.run '^TestVerifReplay$' -test.count=1 -test.timeout 300s`, r.bin)
+	script := `ulimit -v 8388608; exec "$0" -test.run '^TestVerifReplay$' -test.count=1 -test.timeout 300s`
+	if r.race { // the race detector reserves a large shadow address space
+		script = `exec "$0" -test.run '^TestVerifReplay$' -test.count=1 -test.timeout 300s`
+	}
+	cmd := exec.Command("bash", "-c", script, r.bin)
 	cmd.Env = append(os.Environ(), "VERIF_REPLAY="+replayPath, "VERIF_HARNESS="+harness)
 	cmd.Dir = r.lg.g.PkgDir
 	out, _ := cmd.CombinedOutput()
@@ -116,6 +132,13 @@ func judgeReplay(v ViolationJSON, out string) string {
 	}
 	oom := strings.Contains(out, "fatal error: runtime: out of memory") || strings.Contains(out, "fatal error: out of memory") || strings.Contains(out, "cannot allocate memory")
 	switch v.Kind {
+	case "ownership":
+		if strings.Contains(out, "WARNING: DATA RACE") {
+			return "REPRODUCED data race reported by the Go race detector"
+		}
+		if strings.HasPrefix(line, "REPRODUCED") {
+			return line
+		}
 	case "assert":
 		if line == fmt.Sprintf("REPRODUCED assert %q", v.Label) {
 			return line
@@ -172,7 +195,7 @@ func cmdReplay(path string) int {
 		fmt.Println(err)
 		return 2
 	}
-	rr, err := buildReplayRunner(lg, work)
+	rr, err := buildReplayRunnerOpt(lg, work, rf.Kind == "ownership")
 	if err != nil {
 		fmt.Println(err)
 		return 2
